@@ -19,6 +19,8 @@ Require Import Fggs.Proofs.SolveBool Fggs.Proofs.SolveLU.
 Require Import Fggs.Model.MultiSolve Fggs.Proofs.MultiMV Fggs.Proofs.SolveBlock Fggs.Proofs.SolveMatInst.
 Require Import Fggs.Proofs.MultiOrder.
 Require Import Fggs.Proofs.Instances_solve.
+Require Import Fggs.Proofs.SolveStar Fggs.Proofs.MultiSolveSem Fggs.Proofs.MultiSolveLU Fggs.Proofs.MultiSolveDense.
+Require Import Fggs.Proofs.Instances_multisolve.
 Local Open Scope nat_scope.
 
 (** (A) elimination of the unknowns in ANY order (scalars: solve1 a r = star a * r) yields a
@@ -369,3 +371,250 @@ Theorem C09_matrix_block_elimination_least_viterbi :
 Proof. exact trop_matrix_block_elimination. Qed.
 Print Assumptions C09_matrix_block_elimination_least_viterbi.
 
+(** * X = X A + B, the matrix star, and multi_solve (Proofs/SolveStar.v, MultiSolveSem.v,
+      MultiSolveLU.v, MultiSolveDense.v)
+
+    [rsol_spec o n m A B X]    : forall p < m, q < n, X p q = sum_{k<n} X p k * A[k][q] + B[p][q]
+    [rpresol_spec o n m A B Y] : forall p < m, q < n, sum_{k<n} Y p k * A[k][q] + B[p][q] <= Y p q
+    [rleast_spec o n m A B X]  : rsol_spec X /\ forall Y, rpresol_spec Y -> X p q <= Y p q
+    [rsolve_model o n m A B]   = transpose (solve_model_mat (transpose A) (transpose B)): what the
+                                 LU step of multi_solve computes, [a[z,z].T.solve(a[x,z].T).T]
+    [star_model o n A]         = solve_model_mat o n n A identity: the matrix star *)
+
+(** the least solution of X = X A + B is the transpose of the dense solver's answer on the
+    transposed system (here the commutativity of the scalar semiring is used) *)
+Theorem C09_right_solve_least :
+  forall (S : Type) (o : sr_ops S), sr_ring o -> sr_ordered o -> sr_star o ->
+  forall n m (A B : mat S), rleast_spec o n m A B (get2 o (rsolve_model o n m A B)).
+Proof. exact (@rsolve_model_least). Qed.
+Print Assumptions C09_right_solve_least.
+
+(** right multiplication by the star: B . A* is the least solution of X = X A + B *)
+Theorem C09_mul_star_least :
+  forall (S : Type) (o : sr_ops S), sr_ring o -> sr_ordered o -> sr_star o ->
+  forall n m (A B : mat S),
+    rleast_spec o n m A B (get2 o (mm_model o m n n B (star_model o n A))).
+Proof. exact (@mul_star_least). Qed.
+Print Assumptions C09_mul_star_least.
+
+(** solve (A^T) (B^T) = (B . A* )^T, entry by entry *)
+Theorem C09_solve_transposed :
+  forall (S : Type) (o : sr_ops S), sr_ring o -> sr_ordered o -> sr_star o ->
+  forall n m (A B : mat S) p q, p < m -> q < n ->
+    get2 o (solve_model_mat o n m (transpose_model o n n A) (transpose_model o m n B)) q p
+    = get2 o (mm_model o m n n B (star_model o n A)) p q.
+Proof. exact (@solve_transposed). Qed.
+Print Assumptions C09_solve_transposed.
+
+(** (A^T)* = (A* )^T *)
+Theorem C09_star_transpose :
+  forall (S : Type) (o : sr_ops S), sr_ring o -> sr_ordered o -> sr_star o ->
+  forall n (A : mat S) i j, i < n -> j < n ->
+    get2 o (star_model o n (transpose_model o n n A)) i j = get2 o (star_model o n A) j i.
+Proof. exact (@star_model_transpose). Qed.
+Print Assumptions C09_star_transpose.
+
+(** A* = A* A + 1 on N x N matrices as functions ([meq N] = equality of the entries below N),
+    derived from  A* = A A* + 1  and the left induction law only *)
+Theorem C09_star_right_unfold :
+  forall (S : Type) (o : sr_ops S), sr_ring o -> sr_ordered o -> sr_star o ->
+  forall N (a : nat -> nat -> S),
+    meq N (star_mat o N a) (cadd o (cmul o N (star_mat o N a) a) (cid o)).
+Proof. exact (@star_sol_r). Qed.
+Print Assumptions C09_star_right_unfold.
+
+(** the side facts that make the presence tests [if (x,z) in a] of multi_solve sound: an absent
+    block reads as the zero matrix; the dense solver on a zero matrix is the identity, on a zero
+    right-hand side it returns zero, and products with a zero block vanish *)
+Theorem C09_absent_block_facts :
+  forall (S : Type) (o : sr_ops S), sr_ring o ->
+    (forall n (b : vec S) i, i < n -> get1 o (solve_model o n (zeros2 o n n) b) i = get1 o b i)
+    /\ (forall n (A : mat S) i, i < n -> get1 o (solve_model o n A (zeros1 o n)) i = zero o)
+    /\ (forall p q r (B : mat S) i k, i < p -> k < r ->
+          get2 o (mm_model o p q r (zeros2 o p q) B) i k = zero o)
+    /\ (forall p q r (A : mat S) i k, i < p -> k < r ->
+          get2 o (mm_model o p q r A (zeros2 o q r)) i k = zero o).
+Proof.
+  exact (fun S o Hr => conj (@solve_model_zero_matrix S o Hr)
+                      (conj (@solve_model_zero_rhs S o Hr)
+                      (conj (@mm_model_zero_l S o Hr) (@mm_model_zero_r S o Hr)))).
+Qed.
+Print Assumptions C09_absent_block_facts.
+
+(** C09_multi_solve_refines, block level.  For every bound N of the block sizes, every
+    duplicate-free elimination order, every family of present blocks and both values of
+    [transpose]: block x of [multi_solve_model] (read as an N-vector, zero beyond its shape:
+    [semB]) is block x of the block elimination [belim] of Proofs/SolveBlock.v instantiated
+    with N x N matrices (Proofs/SolveMatInst.v), run on the block system
+    [blockA o d transpose a x y] = block (x, y) of [a] (of [a]^T if [transpose]), absent = zero *)
+Theorem C09_multi_solve_refines_blocks :
+  forall (S : Type) (o : sr_ops S), sr_ring o -> sr_ordered o -> sr_star o ->
+  forall (d : dims_t) (N : nat) (order : list key) (transpose : bool) (a : @mt2 S) (b : @mt1 S),
+    (forall x, dim d x <= N) -> NoDup order -> NoDup (map fst a) -> NoDup (map fst b) ->
+  forall x, In x order ->
+    semB o d N (multi_solve_model o d order transpose a b) x
+    = belim (@coef S) (@nvec S N) (cadd o) (cmul o N) (act o N) (vadd o N) (vzero o N)
+            (solve1 o N) (rstar o N) key Nat.eq_dec order (blockA o d transpose a) (semB o d N b) x.
+Proof. exact (@multi_solve_belim). Qed.
+Print Assumptions C09_multi_solve_refines_blocks.
+
+(** C09_multi_solve_refines: hence (C09_matrix_block_elimination_least) the assembled result is
+    the LEAST solution of x = A x + b for the assembled dense system, for every elimination
+    order that enumerates the keys (as [_order_nonterminals] returns:
+    C09_order_nonterminals_enumerates) ... *)
+Theorem C09_multi_solve_refines :
+  forall (S : Type) (o : sr_ops S), sr_ring o -> sr_ordered o -> sr_star o ->
+  forall (d : dims_t) (order : list key) (transpose : bool) (a : @mt2 S) (b : @mt1 S),
+    NoDup (map fst d) -> NoDup order -> (forall x, In x order <-> In x (map fst d)) ->
+    NoDup (map fst a) -> NoDup (map fst b) ->
+    least_spec o (total d) (assemble2 o d transpose a) (assemble1 o d b)
+               (get1 o (assemble1 o d (multi_solve_model o d order transpose a b))).
+Proof. exact (@multi_solve_least). Qed.
+Print Assumptions C09_multi_solve_refines.
+
+(** ... hence equal to the dense solver's answer on the assembled system ... *)
+Theorem C09_multi_solve_equals_dense_solve :
+  forall (S : Type) (o : sr_ops S), sr_ring o -> sr_ordered o -> sr_star o ->
+  forall (d : dims_t) (order : list key) (transpose : bool) (a : @mt2 S) (b : @mt1 S),
+    NoDup (map fst d) -> NoDup order -> (forall x, In x order <-> In x (map fst d)) ->
+    NoDup (map fst a) -> NoDup (map fst b) ->
+  forall i, i < total d ->
+    get1 o (assemble1 o d (multi_solve_model o d order transpose a b)) i
+    = get1 o (solve_model o (total d) (assemble2 o d transpose a) (assemble1 o d b)) i.
+Proof. exact (@multi_solve_is_dense_solve). Qed.
+Print Assumptions C09_multi_solve_equals_dense_solve.
+
+(** ... so verdict 13 of [multi_solve_check_exact] ("block model differs from dense model",
+    checked on every multi case of every run) cannot occur for well-formed inputs *)
+Theorem C09_multi_solve_check_13_impossible :
+  forall (S : Type) (o : sr_ops S), sr_ring o -> sr_ordered o -> sr_star o ->
+  forall (d : dims_t) (eqb : S -> S -> bool) (order : list key) (transpose : bool) (a : @mt2 S) (b : @mt1 S),
+    (forall x, eqb x x = true) ->
+    NoDup (map fst d) -> NoDup order -> (forall x, In x order <-> In x (map fst d)) ->
+    NoDup (map fst a) -> NoDup (map fst b) ->
+    vec_all2 o eqb (total d) (assemble1 o d (multi_solve_model o d order transpose a b))
+             (solve_model o (total d) (assemble2 o d transpose a) (assemble1 o d b)) = true.
+Proof. exact (@multi_solve_never_13). Qed.
+Print Assumptions C09_multi_solve_check_13_impossible.
+
+(** with the order computed by the model of [_order_nonterminals] from the keys of [a], for
+    every iteration order of Python's sets; [a] without any block gives the order [] and the
+    result [b] *)
+Theorem C09_multi_solve_code_order :
+  forall (S : Type) (o : sr_ops S), sr_ring o -> sr_ordered o -> sr_star o ->
+  forall (d : dims_t) (iter : list key -> list key) (transpose : bool) (a : @mt2 S) (b : @mt1 S) l,
+    (forall s x, In x (iter s) -> In x s) -> (forall s x, In x s -> In x (iter s)) ->
+    (forall s, NoDup s -> NoDup (iter s)) ->
+    NoDup (map fst d) -> NoDup (map fst a) -> NoDup (map fst b) ->
+    (forall e, In e (map fst a) -> In (snd e) (map fst d)) ->
+    order_nonterminals_model iter (map fst a) (map fst d) = Some l ->
+    least_spec o (total d) (assemble2 o d transpose a) (assemble1 o d b)
+               (get1 o (assemble1 o d (multi_solve_model o d l transpose a b))).
+Proof. exact (@multi_solve_code_order). Qed.
+Print Assumptions C09_multi_solve_code_order.
+
+(** the same read block by block (the form C02's [linear] uses):
+    [block_sol]/[block_presol o d transpose a b xs]: for every key n and position p < dim n,
+    xs n p = (<=) sum_{m in keys} sum_{q < dim m} A[n,m][p][q] * xs m q + b[n][p] *)
+Theorem C09_multi_solve_block_form :
+  forall (S : Type) (o : sr_ops S), sr_ring o ->
+  forall (d : dims_t) (transpose : bool) (a : @mt2 S) (b sol : @mt1 S),
+    NoDup (map fst d) ->
+    least_spec o (total d) (assemble2 o d transpose a) (assemble1 o d b) (get1 o (assemble1 o d sol)) ->
+    block_sol o d transpose a b (semb o d sol)
+    /\ forall ys, block_presol o d transpose a b ys ->
+         forall n p, In n (map fst d) -> p < dim d n -> le o (semb o d sol n p) (ys n p).
+Proof. exact (@block_least_of_dense). Qed.
+Print Assumptions C09_multi_solve_block_form.
+
+(** carrier instances; no premises *)
+Theorem C09_mul_star_least_bool :
+  forall n m (A B : mat bool),
+    rleast_spec bool_ops n m A B (get2 bool_ops (mm_model bool_ops m n n B (star_model bool_ops n A))).
+Proof. exact bool_mul_star_least. Qed.
+Print Assumptions C09_mul_star_least_bool.
+Theorem C09_mul_star_least_real :
+  forall n m (A B : mat ereal),
+    rleast_spec ereal_ops n m A B (get2 ereal_ops (mm_model ereal_ops m n n B (star_model ereal_ops n A))).
+Proof. exact real_mul_star_least. Qed.
+Print Assumptions C09_mul_star_least_real.
+Theorem C09_mul_star_least_viterbi :
+  forall n m (A B : mat trop),
+    rleast_spec trop_ops n m A B (get2 trop_ops (mm_model trop_ops m n n B (star_model trop_ops n A))).
+Proof. exact trop_mul_star_least. Qed.
+Print Assumptions C09_mul_star_least_viterbi.
+
+Theorem C09_multi_solve_refines_bool :
+  forall (d : dims_t) (order : list key) (transpose : bool) (a : @mt2 bool) (b : @mt1 bool),
+    NoDup (map fst d) -> NoDup order -> (forall x, In x order <-> In x (map fst d)) ->
+    NoDup (map fst a) -> NoDup (map fst b) ->
+    least_spec bool_ops (total d) (assemble2 bool_ops d transpose a) (assemble1 bool_ops d b)
+               (get1 bool_ops (assemble1 bool_ops d (multi_solve_model bool_ops d order transpose a b))).
+Proof. exact bool_multi_solve_least. Qed.
+Print Assumptions C09_multi_solve_refines_bool.
+Theorem C09_multi_solve_refines_real :
+  forall (d : dims_t) (order : list key) (transpose : bool) (a : @mt2 ereal) (b : @mt1 ereal),
+    NoDup (map fst d) -> NoDup order -> (forall x, In x order <-> In x (map fst d)) ->
+    NoDup (map fst a) -> NoDup (map fst b) ->
+    least_spec ereal_ops (total d) (assemble2 ereal_ops d transpose a) (assemble1 ereal_ops d b)
+               (get1 ereal_ops (assemble1 ereal_ops d (multi_solve_model ereal_ops d order transpose a b))).
+Proof. exact real_multi_solve_least. Qed.
+Print Assumptions C09_multi_solve_refines_real.
+Theorem C09_multi_solve_refines_viterbi :
+  forall (d : dims_t) (order : list key) (transpose : bool) (a : @mt2 trop) (b : @mt1 trop),
+    NoDup (map fst d) -> NoDup order -> (forall x, In x order <-> In x (map fst d)) ->
+    NoDup (map fst a) -> NoDup (map fst b) ->
+    least_spec trop_ops (total d) (assemble2 trop_ops d transpose a) (assemble1 trop_ops d b)
+               (get1 trop_ops (assemble1 trop_ops d (multi_solve_model trop_ops d order transpose a b))).
+Proof. exact trop_multi_solve_least. Qed.
+Print Assumptions C09_multi_solve_refines_viterbi.
+
+Theorem C09_multi_solve_equals_dense_solve_bool :
+  forall (d : dims_t) (order : list key) (transpose : bool) (a : @mt2 bool) (b : @mt1 bool),
+    NoDup (map fst d) -> NoDup order -> (forall x, In x order <-> In x (map fst d)) ->
+    NoDup (map fst a) -> NoDup (map fst b) ->
+  forall i, i < total d ->
+    get1 bool_ops (assemble1 bool_ops d (multi_solve_model bool_ops d order transpose a b)) i
+    = get1 bool_ops (solve_model bool_ops (total d) (assemble2 bool_ops d transpose a) (assemble1 bool_ops d b)) i.
+Proof. exact bool_multi_solve_is_dense_solve. Qed.
+Print Assumptions C09_multi_solve_equals_dense_solve_bool.
+Theorem C09_multi_solve_equals_dense_solve_real :
+  forall (d : dims_t) (order : list key) (transpose : bool) (a : @mt2 ereal) (b : @mt1 ereal),
+    NoDup (map fst d) -> NoDup order -> (forall x, In x order <-> In x (map fst d)) ->
+    NoDup (map fst a) -> NoDup (map fst b) ->
+  forall i, i < total d ->
+    get1 ereal_ops (assemble1 ereal_ops d (multi_solve_model ereal_ops d order transpose a b)) i
+    = get1 ereal_ops (solve_model ereal_ops (total d) (assemble2 ereal_ops d transpose a) (assemble1 ereal_ops d b)) i.
+Proof. exact real_multi_solve_is_dense_solve. Qed.
+Print Assumptions C09_multi_solve_equals_dense_solve_real.
+Theorem C09_multi_solve_equals_dense_solve_viterbi :
+  forall (d : dims_t) (order : list key) (transpose : bool) (a : @mt2 trop) (b : @mt1 trop),
+    NoDup (map fst d) -> NoDup order -> (forall x, In x order <-> In x (map fst d)) ->
+    NoDup (map fst a) -> NoDup (map fst b) ->
+  forall i, i < total d ->
+    get1 trop_ops (assemble1 trop_ops d (multi_solve_model trop_ops d order transpose a b)) i
+    = get1 trop_ops (solve_model trop_ops (total d) (assemble2 trop_ops d transpose a) (assemble1 trop_ops d b)) i.
+Proof. exact trop_multi_solve_is_dense_solve. Qed.
+Print Assumptions C09_multi_solve_equals_dense_solve_viterbi.
+
+(** the check functions' cross-check with the decision procedures they use *)
+Theorem C09_multi_solve_check_13_impossible_carriers :
+  (forall d order tr (a : @mt2 bool) b,
+     NoDup (map fst d) -> NoDup order -> (forall x, In x order <-> In x (map fst d)) ->
+     NoDup (map fst a) -> NoDup (map fst b) ->
+     vec_all2 bool_ops Bool.eqb (total d) (assemble1 bool_ops d (multi_solve_model bool_ops d order tr a b))
+              (solve_model bool_ops (total d) (assemble2 bool_ops d tr a) (assemble1 bool_ops d b)) = true)
+  /\ (forall d order tr (a : @mt2 ereal) b,
+     NoDup (map fst d) -> NoDup order -> (forall x, In x order <-> In x (map fst d)) ->
+     NoDup (map fst a) -> NoDup (map fst b) ->
+     vec_all2 ereal_ops eeqb (total d) (assemble1 ereal_ops d (multi_solve_model ereal_ops d order tr a b))
+              (solve_model ereal_ops (total d) (assemble2 ereal_ops d tr a) (assemble1 ereal_ops d b)) = true)
+  /\ (forall d order tr (a : @mt2 trop) b,
+     NoDup (map fst d) -> NoDup order -> (forall x, In x order <-> In x (map fst d)) ->
+     NoDup (map fst a) -> NoDup (map fst b) ->
+     vec_all2 trop_ops teqb (total d) (assemble1 trop_ops d (multi_solve_model trop_ops d order tr a b))
+              (solve_model trop_ops (total d) (assemble2 trop_ops d tr a) (assemble1 trop_ops d b)) = true).
+Proof.
+  exact (conj bool_multi_solve_never_13 (conj real_multi_solve_never_13 trop_multi_solve_never_13)).
+Qed.
+Print Assumptions C09_multi_solve_check_13_impossible_carriers.
